@@ -399,12 +399,22 @@ func c43RepoCase(h *H) {
 	ctx := context.Background()
 	inner := repository.TestBackend(TB)
 	fb := &c43FailBackend{Backend: inner, fail: map[string]bool{}}
-	repo, _ := repository.TestRepositoryWithBackend(TB, fb, 0, repository.Options{})
+	// the two sessions write with different compression settings, so the copies of one blob have
+	// different stored lengths (like copies written by `--compression off` / v1-era clients)
+	optsA, optsB := repository.Options{Compression: repository.CompressionOff}, repository.Options{Compression: repository.CompressionFastest}
+	if h.Bool() {
+		optsA, optsB = optsB, optsA
+	}
+	repo, _ := repository.TestRepositoryWithBackend(TB, fb, 0, optsA)
 	n := 2 + h.Intn(8)
 	var plains [][]byte
 	for i := 0; i < n; i++ {
 		sz := 1 + h.Intn(300)
-		plains = append(plains, append([]byte(fmt.Sprintf("c43r-%d-", i)), h.Bytes(sz)...))
+		p := append([]byte(fmt.Sprintf("c43r-%d-", i)), h.Bytes(sz)...)
+		if h.Intn(3) > 0 { // compressible: the compressed copy is clearly shorter
+			p = append(p, bytes.Repeat([]byte{byte('a' + i)}, 50+h.Intn(400))...)
+		}
+		plains = append(plains, p)
 	}
 	save := func(idxs []int, dup bool) []restic.ID {
 		ids := make([]restic.ID, len(idxs))
@@ -428,25 +438,48 @@ func c43RepoCase(h *H) {
 		all[i] = i
 	}
 	ids := save(all, false)
-	// pack P1 = the pack of blob 0 (all blobs of the first session are in one pack)
-	first := repository.VerifC43Lookup(repo, restic.BlobHandle{Type: restic.DataBlob, ID: ids[0]})
-	p1 := first[0].PackID()
+	packA := repository.VerifC43Lookup(repo, restic.BlobHandle{Type: restic.DataBlob, ID: ids[0]})[0].PackID()
+	// second handle on the same backend with the other compression setting
+	repoB, errB := repository.New(fb, optsB)
+	if errB != nil {
+		panic(errB)
+	}
+	if err := repoB.SearchKey(ctx, "geheim", 5, ""); err != nil {
+		panic(err)
+	}
+	if err := repoB.LoadIndex(ctx, restic.NoopTerminalCounterFactory); err != nil {
+		panic(err)
+	}
+	repo = repoB
 	// duplicates of some blobs in a second pack
 	var dupIdx []int
 	for i := 0; i < n; i++ {
-		if h.Intn(3) == 0 {
+		if h.Intn(2) == 0 {
 			dupIdx = append(dupIdx, i)
 		}
 	}
-	hasDup := map[int]bool{}
+	p1 := packA
 	if len(dupIdx) > 0 {
 		save(dupIdx, true)
-		for _, i := range dupIdx {
-			hasDup[i] = true
+		if h.Intn(3) == 0 {
+			// stream from (and damage) the pack of the second session instead
+			for _, pb := range repository.VerifC43Lookup(repo, restic.BlobHandle{Type: restic.DataBlob, ID: ids[dupIdx[0]]}) {
+				if pb.PackID() != packA {
+					p1 = pb.PackID()
+				}
+			}
 		}
 	}
 	// an extra blob that lives only in another pack (requesting it from P1 must fail)
 	other := save2(repo, append([]byte("c43r-elsewhere-"), h.Bytes(20)...))
+	hasDup := map[int]bool{}
+	for i := 0; i < n; i++ {
+		for _, pb := range repository.VerifC43Lookup(repo, restic.BlobHandle{Type: restic.DataBlob, ID: ids[i]}) {
+			if pb.PackID() != p1 {
+				hasDup[i] = true
+			}
+		}
+	}
 
 	type ent struct {
 		off, length uint
@@ -497,7 +530,12 @@ func c43RepoCase(h *H) {
 		}
 	}
 	if len(req) == 0 {
-		req = append(req, 0)
+		for i := 0; i < n; i++ {
+			if ents[i].inP1 {
+				req = append(req, i)
+				break
+			}
+		}
 	}
 	reqOther := h.Intn(10) == 0
 	if h.Intn(12) == 0 {
@@ -567,6 +605,33 @@ func c43RepoCase(h *H) {
 		h.Rec("res", "panic", HexS(pmsg))
 	} else {
 		h.Rec("res", c43Class(err, false)...)
+	}
+	// LoadBlob itself (the fallback across packs) for every requested blob
+	seen := map[int]bool{}
+	for _, i := range req {
+		if seen[i] {
+			continue
+		}
+		seen[i] = true
+		bh := restic.BlobHandle{Type: restic.DataBlob, ID: ids[i]}
+		for _, pb := range repository.VerifC43Lookup(repo, bh) {
+			st := "good"
+			if pb.PackID() == p1 && (damaged[i] || failP1) {
+				st = "damaged"
+			}
+			h.Rec("copy", Itoa(i), U64(uint64(pb.Blob.Length)), st)
+		}
+		var buf []byte
+		var lerr error
+		lp, _ := Protect(func() { buf, lerr = repo.LoadBlob(ctx, bh, nil) })
+		switch {
+		case lp:
+			h.Rec("lb", Itoa(i), "panic")
+		case lerr != nil:
+			h.Rec("lb", Itoa(i), "err", HexS(lerr.Error()))
+		default:
+			h.Rec("lb", Itoa(i), "ok", B(restic.Hash(buf) == ids[i]))
+		}
 	}
 	h.End()
 }
